@@ -100,6 +100,81 @@ theorem C11_pause_unpause_identity (h h1 h2 : HubSt) (hthr : h.thr ≤ D)
 example : ∃ h : HubSt, h.isPaused = true :=
   ⟨{ (default : HubSt) with paused := some true }, rfl⟩
 
+/-! ### Queries keep working
+
+  The State query (`query_actual_state`: pools as the chain's delegations define them, rates
+  re-derived) does not read a single parameter: on a hub whose parameters — pause flag included —
+  were rewritten it gives the answer it gave before, with the new parameters alongside. -/
+
+/-- the fields an UpdateParams writes -/
+def setParams (h : HubSt) (ep ub fee thr : Nat) (rd : Denom) (p : Option Bool) : HubSt :=
+  { h with epoch := ep, unbonding := ub, fee := fee, thr := thr, rewardDenom := rd, paused := p }
+
+theorem C11_state_query_ignores_params (h : HubSt) (e : HubEnv) (ep ub fee thr : Nat) (rd : Denom) (p : Option Bool) :
+    (setParams h ep ub fee thr rd p).actualState e =
+      match h.actualState e with
+      | .ok st => .ok (setParams st ep ub fee thr rd p)
+      | .error err => .error err := by
+  unfold actualState
+  have hb : (setParams h ep ub fee thr rd p).bSupplyQ e = h.bSupplyQ e := rfl
+  have hs : (setParams h ep ub fee thr rd p).sSupplyQ e = h.sSupplyQ e := rfl
+  by_cases h1 : e.delegations = []
+  · simp only [h1, if_true]
+  · simp only [h1, if_false]
+    have e1 : (setParams h ep ub fee thr rd p).bBond = h.bBond := rfl
+    have e2 : (setParams h ep ub fee thr rd p).sBond = h.sBond := rfl
+    have e3 : (setParams h ep ub fee thr rd p).reqB = h.reqB := rfl
+    have e4 : (setParams h ep ub fee thr rd p).reqS = h.reqS := rfl
+    rw [e1, e2, hb, hs]
+    by_cases h2 : h.bBond + h.sBond = 0
+    · simp only [h2, if_true]
+    · simp only [h2, if_false, bind, Except.bind]
+      cases h.bSupplyQ e with
+      | error err => rfl
+      | ok bs =>
+        cases h.sSupplyQ e with
+        | error err => rfl
+        | ok ss =>
+          simp only [e3, e4]
+          split
+          · split
+            · rfl
+            · rfl
+          · rfl
+
+/-- The owner pauses (or re-parameterises) the hub: whatever the State query answered before, it
+    answers afterwards — same pools, same rates, same batch bookkeeping — and it fails afterwards
+    only if it failed before. -/
+theorem C11_pause_keeps_state_query (h h' : HubSt) (e : HubEnv) (sender : Addr)
+    (ep ub fee thr : Option Nat) (p : Option Bool) (rd : Option Denom)
+    (hx : h.updateParams sender ep ub fee thr p rd = .ok h') :
+    (∀ st, h.actualState e = .ok st → ∃ st', h'.actualState e = .ok st' ∧
+        st'.bRate = st.bRate ∧ st'.sRate = st.sRate ∧ st'.bBond = st.bBond ∧ st'.sBond = st.sBond ∧
+        st'.reqB = st.reqB ∧ st'.reqS = st.reqS ∧ st'.prevHubBalance = st.prevHubBalance ∧
+        st'.lastProcessedBatch = st.lastProcessedBatch ∧ st'.lastUnbondedTime = st.lastUnbondedTime ∧
+        st'.lastIndexMod = st.lastIndexMod) ∧
+    (∀ err, h'.actualState e = .error err → h.actualState e = .error err) := by
+  have hh : h' = setParams h (ep.getD h.epoch) (ub.getD h.unbonding) (fee.getD h.fee) (min (thr.getD h.thr) D)
+      (rd.getD h.rewardDenom) p := by
+    unfold updateParams at hx
+    exc_norm at hx; exc_split at hx
+    all_goals rfl
+  subst hh
+  rw [C11_state_query_ignores_params]
+  constructor
+  · intro st hst
+    rw [hst]
+    exact ⟨_, rfl, rfl, rfl, rfl, rfl, rfl, rfl, rfl, rfl, rfl, rfl⟩
+  · intro err
+    cases h.actualState e with
+    | ok st => intro hc; cases hc
+    | error e0 => intro hc; injection hc with hc; rw [hc]
+
+/-! Non-vacuity: a hub with stake and delegations answers the State query, paused or not. -/
+example : ∃ st, ({ (default : HubSt) with bBond := 5, bsei := some 101, stsei := some 102, paused := some true }).actualState
+    { self := 100, now := 0, hubBalance := 0, delegations := [(201, 5)], supplyOf := fun _ => .ok 5,
+      validatorsOf := fun _ => .ok [] } = .ok st := ⟨_, rfl⟩
+
 /-- As a whole transaction: while the hub is paused, a top-level hub message other than UpdateParams /
     MigrateUnbondWaitList — from anyone, with or without funds — fails and changes nothing anywhere. -/
 theorem C11_system_paused (s : Sys) (sender : Addr) (funds : List (Denom × Nat)) (hm : HubMsg)
